@@ -2,14 +2,14 @@ package ledger
 
 // C18 — Blocks neither create nor destroy Algos.
 //
-// Engine E-SEQ (explicit-state BFS, replay successors) over the REAL Ledger + BlockEvaluator.
+// Engine E-SEQ (explicit-state BFS, successors by replay) over the REAL Ledger + BlockEvaluator.
 //
 // System under exploration: an in-memory Ledger (genesis: 4 funded accounts A0..A3, one of
 // them online + incentive eligible, one unfunded address A4, fee sink, rewards pool sized so
 // that the rewards level moves every round with a non-zero residue) plus a fixed set-up block
 // (asset, two "inner" apps that can issue inner pay / inner close / inner app call, funded app
-// accounts, an asset opt-in). Several scenarios: payouts with bonus (vFuture), payouts with
-// bonus 0 (private consensus version), payouts disabled (v39).
+// accounts, an asset opt-in). Scenarios: payouts with bonus (vFuture), payouts with bonus 0
+// (private consensus version), payouts disabled (v39).
 //
 // Alphabet (ops), simplest first:
 //   group ops  — one transaction group handed to TestTransactionGroup+TransactionGroup:
@@ -23,11 +23,12 @@ package ledger
 //                (fee 0 member), a group whose second member spends from the account created
 //                by the first, a re-fund + close group; fees in {min, 2*min, 3*min, 0 pooled}.
 //   end-block  — GenerateBlock, then the agreement stand-in picks (proposer, eligible) from
-//                {online eligible, online but ineligible, offline account, possibly
-//                closed/unfunded address, fee sink}, Validate (which performs the payout) and
+//                {online eligible, online but ineligible, fee sink, offline account, possibly
+//                closed/unfunded address}, Validate (which performs the payout) and
 //                AddValidatedBlock.
-// Bound: <= G groups per block, <= B consecutive blocks, <= T groups in the whole history
-// (quick G=2,B=2,T=2; thorough G=3,B=3,T=3). A rejected group is "not enabled" (skipped).
+// Bound: <= G groups per block, <= B consecutive blocks, <= T groups in the whole history;
+// a block may follow only non-empty blocks and only a first block may be ended empty
+// (see c18bounds; numbers are in the evidence rule). A rejected group is "not enabled".
 //
 // Oracle (written from the property statement; arithmetic in math/big, independent of
 // AccountTotals / WithUpdatedRewards):
@@ -41,7 +42,7 @@ package ledger
 //       delta + app accounts), taking modified accounts from the delta and the others from
 //       the ledger at the previous round, equals the genesis total; the delta's Totals.All()
 //       as well; accounts modified by a group have in the block delta exactly the value of the
-//       last accepted group touching them (except proposer / end-of-block bookkeeping);
+//       last accepted group touching them;
 //   (3) after AddValidatedBlock: the same sweep through Ledger.LookupWithoutRewards at the
 //       new round equals the genesis total, and Ledger.Totals(rnd).All() and its RewardUnits
 //       agree with the sweep.
@@ -50,20 +51,33 @@ package ledger
 // too; a block refused only because the chosen proposer is a closed account that would get
 // a payout is "not enabled" (agreement would never mark such a proposer eligible).
 //
+// Execution strategy (cost only, not semantics): the engine's replay instance is a lazy
+// recorder; a successor by a group op runs on a fresh evaluator over the (read-only) ledger
+// of its parent state, a successor by an end-block op replays the whole history on a private
+// ledger because it commits. Every transition is executed on the real code.
+//
 // Not covered: state-proof transactions, protocol upgrades in the middle of a history,
 // signatures (blocks are validated with the mocked signature cache as in the upstream
 // ledger tests), balances near 2^64, the testnet hot-fix rounds.
 //
-// Mutants shown DETECTED (see report): payment close crediting the close-to account with the
-// fee out of thin air; Move dropping the sender's just-claimed pending rewards; payout credited
-// without debiting the fee sink; rewards withdrawn from the pool for online units only.
+// Mutants (bin/mut, quick tier) — all DETECTED, see the final report:
+//   M1 ledger/apply/payment.go   close credits CloseRemainderTo with the fee out of thin air
+//   M2 ledger/eval/eval.go       Move debits the sender's pre-reward balance (claimed rewards vanish)
+//   M3 ledger/eval/eval.go       performPayout credits the proposer without debiting the fee sink
+//   M4 ledger/eval/eval.go       StartEvaluator withdraws rewards for the online units only
+//   M5 data/basics/userBalance.go WithUpdatedRewards pays one reward unit too many (invisible to the
+//                                 evaluator's own totals check, caught by oracle (1))
+//   M6 ledger/eval/eval.go       Move skips the zero-amount write for accounts with reward units: a
+//                                 zero-fee keyreg to non-participating then forfeits pending rewards
 
 import (
+	"errors"
 	"fmt"
 	"math/big"
 	"os"
 	"sort"
 	"strings"
+	"sync"
 	"sync/atomic"
 	"testing"
 
@@ -115,38 +129,43 @@ func (tr *c18tracer) AfterTxnGroup(ep *logic.EvalParams, deltas *ledgercore.Stat
 	}
 }
 
-type c18scenario struct {
-	name string
-	cv   protocol.ConsensusVersion
-}
+// ---------------------------------------------------------------------------------------
+// world: immutable per-scenario data shared by all instances
 
 type c18bounds struct {
 	perBlock, blocks, total int
+	allowEmpty              bool // allow empty non-first blocks / blocks after an empty block
+	contEnds                int  // a further block is explored only after one of the first contEnds end-block choices (0 = any)
 }
 
-type c18sys struct {
-	t     *testing.T
-	sc    c18scenario
-	bd    c18bounds
-	proto config.ConsensusParams
-	l     *Ledger
-	ev    *eval.BlockEvaluator
-	tr    *c18tracer
+type c18world struct {
+	t         *testing.T
+	run       *ve.Run
+	name      string
+	cv        protocol.ConsensusVersion
+	proto     config.ConsensusParams
+	bd        c18bounds
+	ops       []c18op
+	eager     bool // replay mode: instances execute immediately on a private ledger
+	nGroupOps int
 
+	gen        bookkeeping.GenesisBalances
+	genBlock   bookkeeping.Block
+	genHash    crypto.Digest
 	a          [5]basics.Address
 	sink, pool basics.Address
+	total      *big.Int
+
+	setupMu    sync.Mutex
+	setupDone  bool
+	setupBlk   bookkeeping.Block
+	setupKnown []basics.Address
 	asset      basics.AssetIndex
 	appA, appB basics.AppIndex
+	approval   []byte
 
-	known   map[basics.Address]bool
-	view    map[basics.Address]ledgercore.AccountData // accounts modified by accepted groups of the open block (+ pool)
-	total   *big.Int                                   // the invariant: genesis total
-	level   uint64                                     // rewards level of the open block
-	pending []string                                   // txids of the open block (state key)
-
-	groupsInBlock, blocks, totalGroups int
-	rejected                           *atomic.Int64
-	harnessErr                         error
+	rejected, ledgers atomic.Int64
+	opAcc, opRej      []atomic.Int64 // per op: accepted / rejected (frontier transitions only)
 }
 
 func c18addr(tag byte) basics.Address {
@@ -198,13 +217,21 @@ const c18innerSource = `
 	  err
 `
 
-func c18genesis(cv protocol.ConsensusVersion) (bookkeeping.GenesisBalances, [5]basics.Address) {
-	var a [5]basics.Address
-	for i := range a {
-		a[i] = c18addr(byte(i))
+func c18newWorld(t *testing.T, name string, cv protocol.ConsensusVersion, bd c18bounds, ops []c18op) (*c18world, error) {
+	w := &c18world{t: t, name: name, cv: cv, proto: config.Consensus[cv], bd: bd, ops: ops}
+	for _, o := range ops {
+		if !o.end {
+			w.nGroupOps++
+		}
 	}
-	sink := c18addr(0x10)
-	pool := c18addr(0x11)
+	w.opAcc = make([]atomic.Int64, len(ops))
+	w.opRej = make([]atomic.Int64, len(ops))
+	for i := range w.a {
+		w.a[i] = c18addr(byte(i))
+	}
+	w.sink = c18addr(0x10)
+	w.pool = c18addr(0x11)
+	a := w.a
 	accts := map[basics.Address]basics.AccountData{
 		a[0]: {MicroAlgos: basics.MicroAlgos{Raw: 50_000_123}, Status: basics.Offline},
 		a[1]: {MicroAlgos: basics.MicroAlgos{Raw: 5_300_000}, Status: basics.Offline},
@@ -213,82 +240,171 @@ func c18genesis(cv protocol.ConsensusVersion) (bookkeeping.GenesisBalances, [5]b
 			VoteID: crypto.OneTimeSignatureVerifier{0x31}, SelectionID: crypto.VRFVerifier{0x32}, StateProofID: merklesignature.Commitment{0x33},
 			VoteFirstValid: 0, VoteLastValid: 1_000_000, VoteKeyDilution: 1000},
 		// fee sink small enough that a few 10-Algo bonuses drain it down to its minimum balance
-		sink: {MicroAlgos: basics.MicroAlgos{Raw: 23_400_000}, Status: basics.NotParticipating},
+		w.sink: {MicroAlgos: basics.MicroAlgos{Raw: 23_400_000}, Status: basics.NotParticipating},
 		// rate = (pool - minbalance)/500000 = 137 per round over ~64 reward units: level +2/round, residue != 0
-		pool: {MicroAlgos: basics.MicroAlgos{Raw: 100_000 + 137*500_000 + 4321}, Status: basics.NotParticipating},
+		w.pool: {MicroAlgos: basics.MicroAlgos{Raw: 100_000 + 137*500_000 + 4321}, Status: basics.NotParticipating},
 	}
-	return bookkeeping.MakeTimestampedGenesisBalances(accts, sink, pool, 1_700_000_000), a
+	w.gen = bookkeeping.MakeTimestampedGenesisBalances(accts, w.sink, w.pool, 1_700_000_000)
+	copy(w.genHash[:], "verif-c18-genesis-hash-000000000")
+	var err error
+	w.genBlock, err = bookkeeping.MakeGenesisBlock(cv, w.gen, "verif-c18", w.genHash)
+	if err != nil {
+		return nil, err
+	}
+	w.total = new(big.Int)
+	for _, ad := range accts {
+		w.total.Add(w.total, new(big.Int).SetUint64(ad.MicroAlgos.Raw))
+	}
+	opsA, err := logic.AssembleString(fmt.Sprintf("#pragma version %d\n", w.proto.LogicSigVersion) + main(c18innerSource))
+	if err != nil {
+		return nil, fmt.Errorf("assemble: %v %v", err, opsA.Errors)
+	}
+	w.approval = opsA.Program
+	return w, nil
 }
 
-func c18new(t *testing.T, sc c18scenario, bd c18bounds, rejected *atomic.Int64) *c18sys {
-	s := &c18sys{t: t, sc: sc, bd: bd, proto: config.Consensus[sc.cv], rejected: rejected,
-		known: map[basics.Address]bool{}, view: map[basics.Address]ledgercore.AccountData{}}
-	gen, a := c18genesis(sc.cv)
-	s.a, s.sink, s.pool = a, gen.FeeSink, gen.RewardsPool
-	var genHash crypto.Digest
-	copy(genHash[:], "verif-c18-genesis-hash-000000000")
-	genBlock, err := bookkeeping.MakeGenesisBlock(sc.cv, gen, "verif-c18", genHash)
-	if err != nil {
-		s.harnessErr = err
-		return s
+// ---------------------------------------------------------------------------------------
+// exec: a materialized execution context (ledger + open evaluator + harness reference view)
+
+type c18exec struct {
+	w    *c18world
+	l    *Ledger
+	owns bool
+	ev   *eval.BlockEvaluator
+	tr   *c18tracer
+
+	asset      basics.AssetIndex
+	appA, appB basics.AppIndex
+	a          [5]basics.Address
+	sink, pool basics.Address
+	proto      config.ConsensusParams
+
+	known   map[basics.Address]bool
+	view    map[basics.Address]ledgercore.AccountData // accounts modified by accepted groups of the open block (+ pool)
+	level   uint64                                    // rewards level of the open block
+	pending []string                                  // txids of the open block (state key)
+	open    []int                                     // op indices of the accepted groups of the open block
+
+	groupsInBlock, blocks int
+	lastReject            error
+}
+
+func (x *c18exec) close() {
+	if x != nil && x.l != nil && x.owns {
+		x.l.Close()
 	}
+	if x != nil {
+		x.l = nil
+	}
+}
+
+func c18openLedger(w *c18world) (*Ledger, error) {
 	cfg := config.GetDefaultLocal()
 	cfg.Archival = true
+	// the default cache sizes (100k-entry LRUs, 150k-entry verified-txn cache) cost seconds of
+	// allocation per ledger; the account caches are not what this property is about
+	cfg.DisableLedgerLRUCache = true
+	cfg.VerifiedTranscationsCacheSize = 256
+	cfg.TxPoolSize = 256
 	name := fmt.Sprintf("verif-c18-%d-%d", os.Getpid(), c18ledgerSeq.Add(1))
-	l, err := OpenLedger(logging.Base(), name, true, ledgercore.InitState{Block: genBlock, Accounts: gen.Balances, GenesisHash: genHash}, cfg)
-	if err != nil {
-		s.harnessErr = err
-		return s
-	}
-	s.l = l
-	for addr := range gen.Balances {
-		s.known[addr] = true
-	}
-	s.known[a[4]] = true
-	// the invariant total: the genesis sum (level 0)
-	s.total = new(big.Int)
-	for _, ad := range gen.Balances {
-		s.total.Add(s.total, new(big.Int).SetUint64(ad.MicroAlgos.Raw))
-	}
-	if err := s.startBlock(); err != nil {
-		s.harnessErr = err
-		return s
-	}
-	if err := s.setup(); err != nil && s.harnessErr == nil {
-		s.harnessErr = fmt.Errorf("setup: %w", err)
-	}
-	if s.harnessErr != nil {
-		c18harnessFail(s.harnessErr)
-	}
-	return s
+	w.ledgers.Add(1)
+	return OpenLedger(logging.Base(), name, true, ledgercore.InitState{Block: w.genBlock, Accounts: w.gen.Balances, GenesisHash: w.genHash}, cfg)
 }
 
-func (s *c18sys) close() {
-	if s.l != nil {
-		s.l.Close()
-		s.l = nil
+// c18newExec opens a private ledger, installs the set-up block and opens the first evaluator.
+func c18newExec(w *c18world) (*c18exec, error) {
+	l, err := c18openLedger(w)
+	if err != nil {
+		return nil, err
 	}
+	x := &c18exec{w: w, l: l, owns: true, a: w.a, sink: w.sink, pool: w.pool, proto: w.proto, known: map[basics.Address]bool{}}
+	for addr := range w.gen.Balances {
+		x.known[addr] = true
+	}
+	x.known[w.a[4]] = true
+	w.setupMu.Lock()
+	defer w.setupMu.Unlock()
+	if !w.setupDone {
+		// first instance of the scenario: build the set-up block through the checked path
+		if err := x.startBlock(); err != nil {
+			x.close()
+			return nil, err
+		}
+		if err := x.setup(); err != nil {
+			x.close()
+			return nil, fmt.Errorf("setup: %w", err)
+		}
+		blk, err := l.Block(l.Latest())
+		if err != nil {
+			x.close()
+			return nil, err
+		}
+		w.setupBlk = blk
+		w.asset, w.appA, w.appB = x.asset, x.appA, x.appB
+		w.setupKnown = x.knownSorted()
+		w.setupDone = true
+		return x, nil
+	}
+	// later instances: re-apply the identical set-up block (same genesis => same block)
+	if err := l.AddBlock(w.setupBlk, agreement.Certificate{}); err != nil {
+		x.close()
+		return nil, fmt.Errorf("re-adding set-up block: %w", err)
+	}
+	l.WaitForCommit(l.Latest())
+	x.asset, x.appA, x.appB = w.asset, w.appA, w.appB
+	for _, a := range w.setupKnown {
+		x.known[a] = true
+	}
+	if err := x.startBlock(); err != nil {
+		x.close()
+		return nil, err
+	}
+	return x, nil
+}
+
+// fork returns an exec sharing x's ledger read-only, with a fresh evaluator on which the
+// open block's accepted groups have been re-applied.
+func (x *c18exec) fork() (*c18exec, error) {
+	y := &c18exec{w: x.w, l: x.l, owns: false, a: x.a, sink: x.sink, pool: x.pool, proto: x.proto,
+		asset: x.asset, appA: x.appA, appB: x.appB, known: make(map[basics.Address]bool, len(x.known)), blocks: x.blocks}
+	for a := range x.known {
+		y.known[a] = true
+	}
+	if err := y.startBlock(); err != nil {
+		return nil, err
+	}
+	for _, op := range x.open {
+		ok, err := y.group(op)
+		if err != nil {
+			return nil, fmt.Errorf("fork: re-applying %q: %w", x.w.ops[op].name, err)
+		}
+		if !ok {
+			return nil, fmt.Errorf("fork: re-applying %q: rejected", x.w.ops[op].name)
+		}
+	}
+	return y, nil
 }
 
 // cur returns the harness' current view of an account inside the open block.
-func (s *c18sys) cur(addr basics.Address) ledgercore.AccountData {
-	if ad, ok := s.view[addr]; ok {
-		return ad
+func (x *c18exec) cur(addr basics.Address) (ledgercore.AccountData, error) {
+	if ad, ok := x.view[addr]; ok {
+		return ad, nil
 	}
-	ad, _, err := s.l.LookupWithoutRewards(s.l.Latest(), addr)
+	ad, _, err := x.l.LookupWithoutRewards(x.l.Latest(), addr)
+	return ad, err
+}
+
+func (x *c18exec) curMoney(addr basics.Address) uint64 {
+	ad, err := x.cur(addr)
 	if err != nil {
-		s.harnessErr = fmt.Errorf("lookup %v: %w", addr, err)
+		return 0
 	}
-	return ad
+	return c18money(ad, x.proto.RewardUnit, x.level).Uint64()
 }
 
-func (s *c18sys) curMoney(addr basics.Address) uint64 {
-	return c18money(s.cur(addr), s.proto.RewardUnit, s.level).Uint64()
-}
-
-func (s *c18sys) knownSorted() []basics.Address {
-	out := make([]basics.Address, 0, len(s.known))
-	for a := range s.known {
+func (x *c18exec) knownSorted() []basics.Address {
+	out := make([]basics.Address, 0, len(x.known))
+	for a := range x.known {
 		out = append(out, a)
 	}
 	sort.Slice(out, func(i, j int) bool { return string(out[i][:]) < string(out[j][:]) })
@@ -296,58 +412,59 @@ func (s *c18sys) knownSorted() []basics.Address {
 }
 
 // startBlock opens the next evaluator and primes the harness' model of the rewards pool.
-func (s *c18sys) startBlock() error {
-	rnd := s.l.Latest()
-	hdr, err := s.l.BlockHdr(rnd)
+func (x *c18exec) startBlock() error {
+	rnd := x.l.Latest()
+	hdr, err := x.l.BlockHdr(rnd)
 	if err != nil {
 		return err
 	}
 	// harness' own count of reward units and of the pool at the previous round
 	units := new(big.Int)
-	for _, a := range s.knownSorted() {
-		ad, _, err := s.l.LookupWithoutRewards(rnd, a)
+	for _, a := range x.knownSorted() {
+		ad, _, err := x.l.LookupWithoutRewards(rnd, a)
 		if err != nil {
 			return err
 		}
 		if ad.Status != basics.NotParticipating {
-			units.Add(units, new(big.Int).SetUint64(ad.MicroAlgos.Raw/s.proto.RewardUnit))
+			units.Add(units, new(big.Int).SetUint64(ad.MicroAlgos.Raw/x.proto.RewardUnit))
 		}
 	}
-	poolPrev, _, err := s.l.LookupWithoutRewards(rnd, s.pool)
+	poolPrev, _, err := x.l.LookupWithoutRewards(rnd, x.pool)
 	if err != nil {
 		return err
 	}
 	nextHdr := bookkeeping.MakeBlock(hdr).BlockHeader
 	nextHdr.TimeStamp = hdr.TimeStamp + 1
-	s.tr = &c18tracer{}
-	ev, err := eval.StartEvaluator(s.l, nextHdr, eval.EvaluatorOptions{Generate: true, Validate: true, Tracer: s.tr})
+	x.tr = &c18tracer{}
+	ev, err := eval.StartEvaluator(x.l, nextHdr, eval.EvaluatorOptions{Generate: true, Validate: true, Tracer: x.tr})
 	if err != nil {
 		return err
 	}
-	if !s.tr.haveHdr {
+	if !x.tr.haveHdr {
 		return fmt.Errorf("tracer did not see the block header")
 	}
-	s.ev = ev
-	s.level = s.tr.hdr.RewardsLevel
-	s.view = map[basics.Address]ledgercore.AccountData{}
-	s.pending = nil
-	s.groupsInBlock = 0
-	if s.level < hdr.RewardsLevel {
-		return ve.Violationf("C18:level-decreased", "rewards level went from %d to %d", hdr.RewardsLevel, s.level)
+	x.ev = ev
+	x.level = x.tr.hdr.RewardsLevel
+	x.view = map[basics.Address]ledgercore.AccountData{}
+	x.pending = nil
+	x.open = nil
+	x.groupsInBlock = 0
+	if x.level < hdr.RewardsLevel {
+		return ve.Violationf("C18:level-decreased", "rewards level went from %d to %d", hdr.RewardsLevel, x.level)
 	}
 	// pool after withdrawal, per the property: exactly what the accounts gain in pending rewards
-	w := new(big.Int).Mul(units, new(big.Int).SetUint64(s.level-hdr.RewardsLevel))
-	pm := c18money(poolPrev, s.proto.RewardUnit, s.level)
-	pm.Sub(pm, w)
+	wd := new(big.Int).Mul(units, new(big.Int).SetUint64(x.level-hdr.RewardsLevel))
+	pm := c18money(poolPrev, x.proto.RewardUnit, x.level)
+	pm.Sub(pm, wd)
 	if pm.Sign() < 0 || !pm.IsUint64() {
 		return fmt.Errorf("pool model underflow")
 	}
 	pn := poolPrev
 	if pn.Status != basics.NotParticipating {
-		pn.RewardsBase = s.level
+		pn.RewardsBase = x.level
 	}
 	pn.MicroAlgos.Raw = pm.Uint64()
-	s.view[s.pool] = pn
+	x.view[x.pool] = pn
 	return nil
 }
 
@@ -373,16 +490,22 @@ const (
 	c18feePoolLast
 )
 
-// group submits one group; accepted=false means the evaluator refused it.
-func (s *c18sys) group(fee c18fee, txs ...*txntest.Txn) (accepted bool, err error) {
-	if s.harnessErr != nil {
-		return false, nil
+func (x *c18exec) group(op int) (bool, error) {
+	o := x.w.ops[op]
+	ok, err := x.submit(o.fee, o.build(x)...)
+	if ok && err == nil {
+		x.open = append(x.open, op)
 	}
+	return ok, err
+}
+
+// submit hands one group to the evaluator; accepted=false means the evaluator refused it.
+func (x *c18exec) submit(fee c18fee, txs ...*txntest.Txn) (accepted bool, err error) {
 	for i, tx := range txs {
 		if tx.Note == nil {
-			tx.Note = fmt.Sprintf("b%d.g%d.t%d", s.blocks, s.groupsInBlock, i)
+			tx.Note = fmt.Sprintf("b%d.g%d.t%d", x.blocks, x.groupsInBlock, i)
 		}
-		fillDefaults(s.t, s.l, s.ev, tx)
+		fillDefaults(x.w.t, x.l, x.ev, tx)
 	}
 	var sum uint64
 	for _, tx := range txs {
@@ -409,124 +532,129 @@ func (s *c18sys) group(fee c18fee, txs ...*txntest.Txn) (accepted bool, err erro
 	} else {
 		stxns = txntest.Group(txs...)
 	}
-	s.tr.lastOK = false
-	s.tr.lastAcct = s.tr.lastAcct[:0]
-	if e := s.ev.TestTransactionGroup(stxns); e != nil {
+	x.tr.lastOK = false
+	x.tr.lastAcct = x.tr.lastAcct[:0]
+	if e := x.ev.TestTransactionGroup(stxns); e != nil {
+		x.lastReject = e
 		return false, nil
 	}
-	if e := s.ev.TransactionGroup(transactions.WrapSignedTxnsWithAD(stxns)...); e != nil {
+	if e := x.ev.TransactionGroup(transactions.WrapSignedTxnsWithAD(stxns)...); e != nil {
 		if strings.Contains(e.Error(), "panic") {
 			return false, ve.Violationf("C18:panic", "evaluator panicked: %v", e)
 		}
+		x.lastReject = e
 		return false, nil
 	}
-	if !s.tr.lastOK {
-		return false, fmt.Errorf("harness: tracer did not observe the accepted group")
+	if !x.tr.lastOK {
+		return false, fmt.Errorf("tracer did not observe the accepted group")
 	}
 	// oracle (1)
-	unit := s.proto.RewardUnit
+	unit := x.proto.RewardUnit
 	diff := new(big.Int)
 	var detail []string
-	for _, br := range s.tr.lastAcct {
-		old := s.cur(br.Addr)
-		mo, mn := c18money(old, unit, s.level), c18money(br.AccountData, unit, s.level)
+	for _, br := range x.tr.lastAcct {
+		old, err := x.cur(br.Addr)
+		if err != nil {
+			return true, err
+		}
+		mo, mn := c18money(old, unit, x.level), c18money(br.AccountData, unit, x.level)
 		diff.Add(diff, mn).Sub(diff, mo)
-		detail = append(detail, fmt.Sprintf("%s: %v -> %v", c18short(s, br.Addr), mo, mn))
+		detail = append(detail, fmt.Sprintf("%s: %v -> %v", x.short(br.Addr), mo, mn))
 	}
-	for _, br := range s.tr.lastAcct {
-		s.view[br.Addr] = br.AccountData
-		s.known[br.Addr] = true
+	for _, br := range x.tr.lastAcct {
+		x.view[br.Addr] = br.AccountData
+		x.known[br.Addr] = true
 	}
 	for _, st := range stxns {
-		s.pending = append(s.pending, st.ID().String())
+		x.pending = append(x.pending, st.ID().String())
 	}
 	if diff.Sign() != 0 {
-		return true, ve.Violationf("C18:group-sum", "accepted group changed the sum of balances (pending rewards at level %d included) by %v: %s", s.level, diff, strings.Join(detail, "; "))
+		return true, ve.Violationf("C18:group-sum", "accepted group changed the sum of balances (pending rewards at level %d included) by %v: %s", x.level, diff, strings.Join(detail, "; "))
 	}
-	s.groupsInBlock++
-	s.totalGroups++
+	x.groupsInBlock++
 	return true, nil
 }
 
-func c18short(s *c18sys, a basics.Address) string {
-	for i, x := range s.a {
-		if x == a {
+func (x *c18exec) short(a basics.Address) string {
+	for i, y := range x.a {
+		if y == a {
 			return fmt.Sprintf("A%d", i)
 		}
 	}
 	switch a {
-	case s.sink:
+	case x.sink:
 		return "sink"
-	case s.pool:
+	case x.pool:
 		return "pool"
-	case s.appA.Address():
+	case x.appA.Address():
 		return "appA"
-	case s.appB.Address():
+	case x.appB.Address():
 		return "appB"
 	}
 	return a.String()[:8]
 }
 
 // sweepDelta: sum over every known account, taking modified ones from the delta.
-func (s *c18sys) sweepDelta(d *ledgercore.StateDelta, prevRnd basics.Round) (*big.Int, error) {
+func (x *c18exec) sweepDelta(d *ledgercore.StateDelta, prevRnd basics.Round) (*big.Int, error) {
 	for i := 0; i < d.Accts.Len(); i++ {
 		addr, _ := d.Accts.GetByIdx(i)
-		s.known[addr] = true
+		x.known[addr] = true
 	}
 	sum := new(big.Int)
-	for _, a := range s.knownSorted() {
+	for _, a := range x.knownSorted() {
 		ad, ok := d.Accts.GetData(a)
 		if !ok {
 			var err error
-			ad, _, err = s.l.LookupWithoutRewards(prevRnd, a)
+			ad, _, err = x.l.LookupWithoutRewards(prevRnd, a)
 			if err != nil {
 				return nil, err
 			}
 		}
-		sum.Add(sum, c18money(ad, s.proto.RewardUnit, s.level))
+		sum.Add(sum, c18money(ad, x.proto.RewardUnit, x.level))
 	}
 	return sum, nil
 }
 
 // endBlock: generate, let the agreement stand-in choose (proposer, eligible), validate, add.
-func (s *c18sys) endBlock(proposer basics.Address, eligible bool) (enabled bool, err error) {
-	if s.harnessErr != nil {
-		return false, nil
+func (x *c18exec) endBlock(proposer basics.Address, eligible bool) (enabled bool, err error) {
+	if !x.owns {
+		return false, fmt.Errorf("endBlock on a shared ledger")
 	}
-	prevRnd := s.l.Latest()
-	ub, gerr := s.ev.GenerateBlock(nil)
+	total := x.w.total
+	prevRnd := x.l.Latest()
+	ub, gerr := x.ev.GenerateBlock(nil)
 	if gerr != nil {
 		return true, c18blockErr("GenerateBlock", gerr)
 	}
 	gd := ub.UnfinishedDeltas()
-	if blk := ub.UnfinishedBlock(); blk.RewardsLevel != s.level {
-		return true, fmt.Errorf("harness: level mismatch %d vs %d", blk.RewardsLevel, s.level)
+	blk := ub.UnfinishedBlock()
+	if blk.RewardsLevel != x.level {
+		return true, fmt.Errorf("level mismatch %d vs %d", blk.RewardsLevel, x.level)
 	}
 	// oracle (2a): generated delta
-	sum, serr := s.sweepDelta(&gd, prevRnd)
+	sum, serr := x.sweepDelta(&gd, prevRnd)
 	if serr != nil {
 		return true, serr
 	}
-	if sum.Cmp(s.total) != 0 {
-		return true, ve.Violationf("C18:block-sum", "generated block %d: sum over all accounts %v != genesis total %v", prevRnd+1, sum, s.total)
+	if sum.Cmp(total) != 0 {
+		return true, ve.Violationf("C18:block-sum", "generated block %d: sum over all accounts %v != genesis total %v", prevRnd+1, sum, total)
 	}
-	for addr, want := range s.view {
+	for addr, want := range x.view {
 		got, ok := gd.Accts.GetData(addr)
 		if !ok {
-			return true, ve.Violationf("C18:block-delta-missing", "account %s modified by an accepted group (or the pool) is absent from the block delta", c18short(s, addr))
+			return true, ve.Violationf("C18:block-delta-missing", "account %s modified by an accepted group (or the pool) is absent from the block delta", x.short(addr))
 		}
 		if got.MicroAlgos != want.MicroAlgos || got.RewardsBase != want.RewardsBase || got.Status != want.Status {
 			return true, ve.Violationf("C18:block-delta-differs", "account %s: block delta has %d/base %d/status %v, the last accepted group left %d/base %d/status %v",
-				c18short(s, addr), got.MicroAlgos.Raw, got.RewardsBase, got.Status, want.MicroAlgos.Raw, want.RewardsBase, want.Status)
+				x.short(addr), got.MicroAlgos.Raw, got.RewardsBase, got.Status, want.MicroAlgos.Raw, want.RewardsBase, want.Status)
 		}
 	}
-	blk := ub.UnfinishedBlock()
-	if s.proto.Payouts.Enabled {
+	if x.proto.Payouts.Enabled {
 		blk = blk.WithProposer(committee.Seed(proposer), proposer, eligible)
 	} else {
 		blk = blk.WithProposer(committee.Seed(proposer), basics.Address{}, false)
 	}
-	vb, verr := validateWithoutSignatures(s.t, s.l, blk)
+	vb, verr := validateWithoutSignatures(x.w.t, x.l, blk)
 	if verr != nil {
 		if strings.Contains(verr.Error(), "is closed but expects payout") {
 			return false, nil // agreement would not have marked a closed account eligible
@@ -534,50 +662,50 @@ func (s *c18sys) endBlock(proposer basics.Address, eligible bool) (enabled bool,
 		return true, c18blockErr("Validate", verr)
 	}
 	vd := vb.Delta()
-	sum, serr = s.sweepDelta(&vd, prevRnd)
+	sum, serr = x.sweepDelta(&vd, prevRnd)
 	if serr != nil {
 		return true, serr
 	}
-	if sum.Cmp(s.total) != 0 {
+	if sum.Cmp(total) != 0 {
 		return true, ve.Violationf("C18:block-sum", "validated block %d (proposer %s eligible=%v payout %d): sum over all accounts %v != genesis total %v",
-			prevRnd+1, c18short(s, proposer), eligible, vb.Block().ProposerPayout().Raw, sum, s.total)
+			prevRnd+1, x.short(proposer), eligible, vb.Block().ProposerPayout().Raw, sum, total)
 	}
-	if all := vd.Totals.All(); new(big.Int).SetUint64(all.Raw).Cmp(s.total) != 0 {
-		return true, ve.Violationf("C18:delta-totals", "validated block %d: delta Totals.All()=%d != genesis total %v", prevRnd+1, all.Raw, s.total)
+	if all := vd.Totals.All(); new(big.Int).SetUint64(all.Raw).Cmp(total) != 0 {
+		return true, ve.Violationf("C18:delta-totals", "validated block %d: delta Totals.All()=%d != genesis total %v", prevRnd+1, all.Raw, total)
 	}
-	if err := s.l.AddValidatedBlock(*vb, agreement.Certificate{}); err != nil {
-		return true, fmt.Errorf("harness: AddValidatedBlock: %w", err)
+	if err := x.l.AddValidatedBlock(*vb, agreement.Certificate{}); err != nil {
+		return true, fmt.Errorf("AddValidatedBlock: %w", err)
 	}
-	s.l.WaitForCommit(s.l.Latest())
+	x.l.WaitForCommit(x.l.Latest())
 	// oracle (3): the committed ledger
-	rnd := s.l.Latest()
+	rnd := x.l.Latest()
 	sum = new(big.Int)
 	units := uint64(0)
-	for _, a := range s.knownSorted() {
-		ad, _, err := s.l.LookupWithoutRewards(rnd, a)
+	for _, a := range x.knownSorted() {
+		ad, _, err := x.l.LookupWithoutRewards(rnd, a)
 		if err != nil {
 			return true, err
 		}
-		sum.Add(sum, c18money(ad, s.proto.RewardUnit, s.level))
+		sum.Add(sum, c18money(ad, x.proto.RewardUnit, x.level))
 		if ad.Status != basics.NotParticipating {
-			units += ad.MicroAlgos.Raw / s.proto.RewardUnit
+			units += ad.MicroAlgos.Raw / x.proto.RewardUnit
 		}
 	}
-	if sum.Cmp(s.total) != 0 {
-		return true, ve.Violationf("C18:ledger-sum", "after block %d: sum over all accounts in the ledger %v != genesis total %v", rnd, sum, s.total)
+	if sum.Cmp(total) != 0 {
+		return true, ve.Violationf("C18:ledger-sum", "after block %d: sum over all accounts in the ledger %v != genesis total %v", rnd, sum, total)
 	}
-	tot, err := s.l.Totals(rnd)
+	tot, err := x.l.Totals(rnd)
 	if err != nil {
 		return true, err
 	}
-	if all := tot.All(); new(big.Int).SetUint64(all.Raw).Cmp(s.total) != 0 || tot.RewardsLevel != s.level {
-		return true, ve.Violationf("C18:ledger-totals", "after block %d: Ledger.Totals All()=%d level %d, expected %v level %d", rnd, all.Raw, tot.RewardsLevel, s.total, s.level)
+	if all := tot.All(); new(big.Int).SetUint64(all.Raw).Cmp(total) != 0 || tot.RewardsLevel != x.level {
+		return true, ve.Violationf("C18:ledger-totals", "after block %d: Ledger.Totals All()=%d level %d, expected %v level %d", rnd, all.Raw, tot.RewardsLevel, total, x.level)
 	}
 	if tot.RewardUnits() != units {
 		return true, ve.Violationf("C18:ledger-units", "after block %d: Ledger.Totals reward units %d, sweep says %d", rnd, tot.RewardUnits(), units)
 	}
-	s.blocks++
-	if err := s.startBlock(); err != nil {
+	x.blocks++
+	if err := x.startBlock(); err != nil {
 		return true, err
 	}
 	return true, nil
@@ -585,19 +713,20 @@ func (s *c18sys) endBlock(proposer basics.Address, eligible bool) (enabled bool,
 
 func c18blockErr(stage string, err error) error {
 	msg := err.Error()
-	if strings.Contains(msg, "sum of money changed") || strings.Contains(msg, "overflowed totals") || strings.Contains(msg, "overflow") {
+	if strings.Contains(msg, "sum of money changed") || strings.Contains(msg, "overflow") {
 		return ve.Violationf("C18:evaluator-money-check", "%s of a block built from accepted groups failed the evaluator's own conservation check: %v", stage, err)
 	}
 	if strings.Contains(msg, "panic") {
 		return ve.Violationf("C18:panic", "%s panicked: %v", stage, err)
 	}
-	return fmt.Errorf("harness: unexpected %s error: %w", stage, err)
+	return fmt.Errorf("unexpected %s error: %w", stage, err)
 }
 
-// setup: one fixed block creating the asset and the apps.
-func (s *c18sys) setup() error {
+// setup: one fixed block creating the asset and the apps (run once per scenario, with all
+// oracles; later instances re-add the resulting block).
+func (x *c18exec) setup() error {
 	must := func(name string, fee c18fee, txs ...*txntest.Txn) error {
-		ok, err := s.group(fee, txs...)
+		ok, err := x.submit(fee, txs...)
 		if err != nil {
 			return fmt.Errorf("%s: %w", name, err)
 		}
@@ -606,69 +735,97 @@ func (s *c18sys) setup() error {
 		}
 		return nil
 	}
-	a := s.a
+	a := x.a
 	if err := must("asset", c18feeMin, &txntest.Txn{Type: "acfg", Sender: a[0], AssetParams: basics.AssetParams{Total: 1000, UnitName: "x", Manager: a[0]}}); err != nil {
 		return err
 	}
-	s.asset = basics.AssetIndex(s.ev.TestingTxnCounter())
-	if err := must("appA", c18feeMin, &txntest.Txn{Type: "appl", Sender: a[0], ApprovalProgram: main(c18innerSource), Note: "A"}); err != nil {
+	x.asset = basics.AssetIndex(x.ev.TestingTxnCounter())
+	if err := must("appA", c18feeMin, &txntest.Txn{Type: "appl", Sender: a[0], ApprovalProgram: x.w.approval, ClearStateProgram: x.w.approval, Note: "A"}); err != nil {
 		return err
 	}
-	s.appA = basics.AppIndex(s.ev.TestingTxnCounter())
-	if err := must("appB", c18feeMin, &txntest.Txn{Type: "appl", Sender: a[0], ApprovalProgram: main(c18innerSource), Note: "B"}); err != nil {
+	x.appA = basics.AppIndex(x.ev.TestingTxnCounter())
+	if err := must("appB", c18feeMin, &txntest.Txn{Type: "appl", Sender: a[0], ApprovalProgram: x.w.approval, ClearStateProgram: x.w.approval, Note: "B"}); err != nil {
 		return err
 	}
-	s.appB = basics.AppIndex(s.ev.TestingTxnCounter())
-	s.known[s.appA.Address()] = true
-	s.known[s.appB.Address()] = true
+	x.appB = basics.AppIndex(x.ev.TestingTxnCounter())
+	x.known[x.appA.Address()] = true
+	x.known[x.appB.Address()] = true
 	if err := must("fund", c18feeMin,
-		&txntest.Txn{Type: "pay", Sender: a[0], Receiver: s.appA.Address(), Amount: 1_300_000},
-		&txntest.Txn{Type: "pay", Sender: a[0], Receiver: s.appB.Address(), Amount: 600_000},
-		&txntest.Txn{Type: "axfer", Sender: a[1], AssetReceiver: a[1], XferAsset: s.asset}); err != nil {
+		&txntest.Txn{Type: "pay", Sender: a[0], Receiver: x.appA.Address(), Amount: 1_300_000},
+		&txntest.Txn{Type: "pay", Sender: a[0], Receiver: x.appB.Address(), Amount: 600_000},
+		&txntest.Txn{Type: "axfer", Sender: a[1], AssetReceiver: a[1], XferAsset: x.asset}); err != nil {
 		return err
 	}
-	en, err := s.endBlock(s.sink, true)
+	en, err := x.endBlock(x.sink, true)
 	if err != nil {
 		return err
 	}
 	if !en {
 		return fmt.Errorf("setup block not enabled")
 	}
-	s.blocks, s.totalGroups = 0, 0
+	x.blocks = 0
 	return nil
 }
+
+// key: everything that can influence future behaviour of this alphabet: all known accounts
+// with their resources (LookupLatest), the rewards/bonus/counter part of the latest header,
+// the open block's accepted transactions. Transaction ids never recur (position-dependent
+// notes), so the tx tail is not part of the key.
+func (x *c18exec) key() string {
+	var b strings.Builder
+	rnd := x.l.Latest()
+	hdr, _ := x.l.BlockHdr(rnd)
+	fmt.Fprintf(&b, "r%d|%d|%d|%d|%d|bonus%d|ctr%d|", rnd, hdr.RewardsLevel, hdr.RewardsRate, hdr.RewardsResidue, hdr.RewardsRecalculationRound,
+		hdr.Bonus.Raw, hdr.TxnCounter)
+	for _, a := range x.knownSorted() {
+		ad, _, _, err := x.l.LookupLatest(a)
+		if err != nil {
+			fmt.Fprintf(&b, "err:%v", err)
+			continue
+		}
+		raw, _, _ := x.l.LookupWithoutRewards(rnd, a)
+		fmt.Fprintf(&b, "%x:%x:%d;", a[:4], protocol.Encode(&ad), raw.RewardsBase)
+	}
+	for _, id := range x.pending {
+		b.WriteString(id)
+		b.WriteByte(',')
+	}
+	return b.String()
+}
+
+// ---------------------------------------------------------------------------------------
+// ops
 
 type c18op struct {
 	name  string
 	fee   c18fee
-	build func(s *c18sys) []*txntest.Txn
+	build func(x *c18exec) []*txntest.Txn
 	// end-block ops
 	end      bool
-	proposer func(s *c18sys) basics.Address
+	proposer func(x *c18exec) basics.Address
 	eligible bool
 }
 
-func c18ops() []c18op {
-	pay := func(from, to int, amt uint64) func(s *c18sys) []*txntest.Txn {
-		return func(s *c18sys) []*txntest.Txn {
-			return []*txntest.Txn{{Type: "pay", Sender: s.a[from], Receiver: s.a[to], Amount: amt}}
+func c18ops(nEnds int) []c18op {
+	pay := func(from, to int, amt uint64) func(x *c18exec) []*txntest.Txn {
+		return func(x *c18exec) []*txntest.Txn {
+			return []*txntest.Txn{{Type: "pay", Sender: x.a[from], Receiver: x.a[to], Amount: amt}}
 		}
 	}
-	closeTo := func(from int, to func(s *c18sys) basics.Address) func(s *c18sys) []*txntest.Txn {
-		return func(s *c18sys) []*txntest.Txn {
-			return []*txntest.Txn{{Type: "pay", Sender: s.a[from], CloseRemainderTo: to(s)}}
+	closeTo := func(from int, to func(x *c18exec) basics.Address) func(x *c18exec) []*txntest.Txn {
+		return func(x *c18exec) []*txntest.Txn {
+			return []*txntest.Txn{{Type: "pay", Sender: x.a[from], CloseRemainderTo: to(x)}}
 		}
 	}
-	acct := func(i int) func(s *c18sys) basics.Address {
-		return func(s *c18sys) basics.Address { return s.a[i] }
+	acct := func(i int) func(x *c18exec) basics.Address {
+		return func(x *c18exec) basics.Address { return x.a[i] }
 	}
-	call := func(sender int, app func(s *c18sys) basics.AppIndex, recv int, args ...string) func(s *c18sys) []*txntest.Txn {
-		return func(s *c18sys) []*txntest.Txn {
-			tx := txntest.Txn{Type: "appl", Sender: s.a[sender], ApplicationID: app(s), Accounts: []basics.Address{s.a[recv]}, ForeignApps: []basics.AppIndex{s.appB}}
+	call := func(sender int, recv int, args ...string) func(x *c18exec) []*txntest.Txn {
+		return func(x *c18exec) []*txntest.Txn {
+			tx := txntest.Txn{Type: "appl", Sender: x.a[sender], ApplicationID: x.appA, Accounts: []basics.Address{x.a[recv]}, ForeignApps: []basics.AppIndex{x.appB}}
 			return []*txntest.Txn{tx.Args(args...)}
 		}
 	}
-	appA := func(s *c18sys) basics.AppIndex { return s.appA }
 	u64 := func(v uint64) string {
 		var b [8]byte
 		for i := 0; i < 8; i++ {
@@ -680,91 +837,123 @@ func c18ops() []c18op {
 		{name: "pay0 A0>A1", build: pay(0, 1, 0)},
 		{name: "pay1 A0>A1", build: pay(0, 1, 1)},
 		{name: "payMinBal A0>A4(new)", build: pay(0, 4, 100_000)},
-		{name: "payAllButFee A2>A1", build: func(s *c18sys) []*txntest.Txn {
-			bal := s.curMoney(s.a[2])
-			fee := s.proto.MinTxnFee
+		// everything the account can spend without closing: balance (with pending rewards) - fee - min balance
+		{name: "payAllSpendable A2>A1", build: func(x *c18exec) []*txntest.Txn {
+			bal := x.curMoney(x.a[2])
+			keep := x.proto.MinTxnFee + x.proto.MinBalance
+			if bal < keep {
+				bal = keep
+			}
+			return []*txntest.Txn{{Type: "pay", Sender: x.a[2], Receiver: x.a[1], Amount: bal - keep, Fee: x.proto.MinTxnFee}}
+		}},
+		// everything but the fee: leaves a zero balance without closing (refused unless the record is empty)
+		{name: "payAllButFee A2>A1", build: func(x *c18exec) []*txntest.Txn {
+			bal := x.curMoney(x.a[2])
+			fee := x.proto.MinTxnFee
 			if bal < fee {
 				bal = fee
 			}
-			return []*txntest.Txn{{Type: "pay", Sender: s.a[2], Receiver: s.a[1], Amount: bal - fee, Fee: fee}}
+			return []*txntest.Txn{{Type: "pay", Sender: x.a[2], Receiver: x.a[1], Amount: bal - fee, Fee: fee}}
 		}},
 		{name: "pay1 A0>A3(online) fee2x", fee: c18feeX2, build: pay(0, 3, 1)},
 		{name: "close A2>A0", build: closeTo(2, acct(0))},
 		{name: "close A2>self", build: closeTo(2, acct(2))},
-		{name: "close A2>sink", build: closeTo(2, func(s *c18sys) basics.Address { return s.sink })},
+		{name: "close A2>sink", build: closeTo(2, func(x *c18exec) basics.Address { return x.sink })},
 		{name: "close A2>A4(new)", build: closeTo(2, acct(4))},
 		{name: "close A4>A0", build: closeTo(4, acct(0))},
 		{name: "close A3(online)>A0", build: closeTo(3, acct(0))},
-		{name: "pay A0>pool 1000", build: func(s *c18sys) []*txntest.Txn {
-			return []*txntest.Txn{{Type: "pay", Sender: s.a[0], Receiver: s.pool, Amount: 1000}}
+		{name: "pay A0>pool 1000", build: func(x *c18exec) []*txntest.Txn {
+			return []*txntest.Txn{{Type: "pay", Sender: x.a[0], Receiver: x.pool, Amount: 1000}}
 		}},
-		{name: "pay A0>sink 1000", build: func(s *c18sys) []*txntest.Txn {
-			return []*txntest.Txn{{Type: "pay", Sender: s.a[0], Receiver: s.sink, Amount: 1000}}
+		{name: "pay A0>sink 1000", build: func(x *c18exec) []*txntest.Txn {
+			return []*txntest.Txn{{Type: "pay", Sender: x.a[0], Receiver: x.sink, Amount: 1000}}
 		}},
-		{name: "pay sink>pool 1000", build: func(s *c18sys) []*txntest.Txn {
-			return []*txntest.Txn{{Type: "pay", Sender: s.sink, Receiver: s.pool, Amount: 1000}}
+		{name: "pay sink>pool 1000", build: func(x *c18exec) []*txntest.Txn {
+			return []*txntest.Txn{{Type: "pay", Sender: x.sink, Receiver: x.pool, Amount: 1000}}
 		}},
-		{name: "axfer A0>A1 1 fee2x", fee: c18feeX2, build: func(s *c18sys) []*txntest.Txn {
-			return []*txntest.Txn{{Type: "axfer", Sender: s.a[0], AssetReceiver: s.a[1], XferAsset: s.asset, AssetAmount: 1}}
+		{name: "axfer A0>A1 1 fee2x", fee: c18feeX2, build: func(x *c18exec) []*txntest.Txn {
+			return []*txntest.Txn{{Type: "axfer", Sender: x.a[0], AssetReceiver: x.a[1], XferAsset: x.asset, AssetAmount: 1}}
 		}},
-		{name: "axfer optout A1", build: func(s *c18sys) []*txntest.Txn {
-			return []*txntest.Txn{{Type: "axfer", Sender: s.a[1], AssetReceiver: s.a[0], AssetCloseTo: s.a[0], XferAsset: s.asset}}
+		{name: "axfer optout A1", build: func(x *c18exec) []*txntest.Txn {
+			return []*txntest.Txn{{Type: "axfer", Sender: x.a[1], AssetReceiver: x.a[0], AssetCloseTo: x.a[0], XferAsset: x.asset}}
 		}},
-		{name: "acfg create A1", build: func(s *c18sys) []*txntest.Txn {
-			return []*txntest.Txn{{Type: "acfg", Sender: s.a[1], AssetParams: basics.AssetParams{Total: 5, UnitName: "y"}}}
+		{name: "acfg create A1", build: func(x *c18exec) []*txntest.Txn {
+			return []*txntest.Txn{{Type: "acfg", Sender: x.a[1], AssetParams: basics.AssetParams{Total: 5, UnitName: "y"}}}
 		}},
-		{name: "appl noop A1", build: call(1, appA, 1, "noop")},
-		{name: "appl innerpay 1000>A1 fee2x", fee: c18feeX2, build: call(1, appA, 1, "pay", u64(1000))},
-		{name: "appl innerpay 1000>A2 appPaysFee", build: call(1, appA, 2, "pay", u64(1000))},
-		{name: "appl innerclose >A1", build: call(0, appA, 1, "close")},
-		{name: "appl inner call appB pay 1000>A1 fee3x", fee: c18feeX3, build: call(1, appA, 1, "call", u64(1000))},
-		{name: "appl inner call appB pay appsPayFee", build: call(0, appA, 2, "call", u64(1000))},
-		{name: "appl create A1", build: func(s *c18sys) []*txntest.Txn {
-			return []*txntest.Txn{{Type: "appl", Sender: s.a[1], ApprovalProgram: "int 1", GlobalStateSchema: basics.StateSchema{NumUint: 1}}}
+		{name: "appl noop A1", build: call(1, 1, "noop")},
+		{name: "appl innerpay 1000>A1 fee2x", fee: c18feeX2, build: call(1, 1, "pay", u64(1000))},
+		{name: "appl innerpay 1000>A2 appPaysFee", build: call(1, 2, "pay", u64(1000))},
+		{name: "appl innerclose >A1", build: call(0, 1, "close")},
+		{name: "appl inner call appB pay 1000>A1 fee3x", fee: c18feeX3, build: call(1, 1, "call", u64(1000))},
+		{name: "appl inner call appB pay appsPayFee", build: call(0, 2, "call", u64(1000))},
+		{name: "appl create A1", build: func(x *c18exec) []*txntest.Txn {
+			return []*txntest.Txn{{Type: "appl", Sender: x.a[1], ApprovalProgram: "int 1", GlobalStateSchema: basics.StateSchema{NumUint: 1}}}
 		}},
-		{name: "appl delete appB", build: func(s *c18sys) []*txntest.Txn {
-			return []*txntest.Txn{{Type: "appl", Sender: s.a[0], ApplicationID: s.appB, OnCompletion: transactions.DeleteApplicationOC, ApplicationArgs: [][]byte{[]byte("noop")}}}
+		{name: "appl delete appB", build: func(x *c18exec) []*txntest.Txn {
+			return []*txntest.Txn{{Type: "appl", Sender: x.a[0], ApplicationID: x.appB, OnCompletion: transactions.DeleteApplicationOC, ApplicationArgs: [][]byte{[]byte("noop")}}}
 		}},
-		{name: "keyreg online A1 fee 2A", build: func(s *c18sys) []*txntest.Txn {
-			return []*txntest.Txn{{Type: "keyreg", Sender: s.a[1], Fee: 2_000_000,
+		{name: "keyreg online A1 fee 2A", build: func(x *c18exec) []*txntest.Txn {
+			return []*txntest.Txn{{Type: "keyreg", Sender: x.a[1], Fee: 2_000_000,
 				VotePK: crypto.OneTimeSignatureVerifier{0x41}, SelectionPK: crypto.VRFVerifier{0x42}, StateProofPK: merklesignature.Commitment{0x43}, VoteKeyDilution: 1000}}
 		}},
-		{name: "keyreg offline A3", build: func(s *c18sys) []*txntest.Txn {
-			return []*txntest.Txn{{Type: "keyreg", Sender: s.a[3]}}
+		{name: "keyreg offline A3", build: func(x *c18exec) []*txntest.Txn {
+			return []*txntest.Txn{{Type: "keyreg", Sender: x.a[3]}}
 		}},
-		{name: "keyreg nonpart A1", build: func(s *c18sys) []*txntest.Txn {
-			return []*txntest.Txn{{Type: "keyreg", Sender: s.a[1], Nonparticipation: true}}
+		{name: "keyreg nonpart A1", build: func(x *c18exec) []*txntest.Txn {
+			return []*txntest.Txn{{Type: "keyreg", Sender: x.a[1], Nonparticipation: true}}
 		}},
-		{name: "heartbeat A0 for A3", build: func(s *c18sys) []*txntest.Txn {
-			latest := s.l.Latest()
-			hdr, err := s.l.BlockHdr(latest)
-			if err != nil {
-				s.harnessErr = err
-			}
-			return []*txntest.Txn{{Type: "hb", Sender: s.a[0], FirstValid: latest, HbAddress: s.a[3], HbProof: crypto.HeartbeatProof{Sig: [64]byte{1}},
+		{name: "heartbeat A0 for A3", build: func(x *c18exec) []*txntest.Txn {
+			latest := x.l.Latest()
+			hdr, _ := x.l.BlockHdr(latest)
+			return []*txntest.Txn{{Type: "hb", Sender: x.a[0], FirstValid: latest, HbAddress: x.a[3], HbProof: crypto.HeartbeatProof{Sig: [64]byte{1}},
 				HbSeed: hdr.Seed, HbVoteID: crypto.OneTimeSignatureVerifier{0x31}, HbKeyDilution: 1000}}
 		}},
-		{name: "grp[pay1 A0>A1 | pay1 A1>A0 fee0]", fee: c18feePoolFirst, build: func(s *c18sys) []*txntest.Txn {
-			return []*txntest.Txn{{Type: "pay", Sender: s.a[0], Receiver: s.a[1], Amount: 1}, {Type: "pay", Sender: s.a[1], Receiver: s.a[0], Amount: 1}}
+		{name: "grp[pay1 A0>A1 | pay1 A1>A0 fee0]", fee: c18feePoolFirst, build: func(x *c18exec) []*txntest.Txn {
+			return []*txntest.Txn{{Type: "pay", Sender: x.a[0], Receiver: x.a[1], Amount: 1}, {Type: "pay", Sender: x.a[1], Receiver: x.a[0], Amount: 1}}
 		}},
-		{name: "grp[payMinBal A0>A4 | pay0 A4>A1 fee0]", fee: c18feePoolFirst, build: func(s *c18sys) []*txntest.Txn {
-			return []*txntest.Txn{{Type: "pay", Sender: s.a[0], Receiver: s.a[4], Amount: 100_000}, {Type: "pay", Sender: s.a[4], Receiver: s.a[1], Amount: 0}}
+		{name: "grp[payMinBal A0>A4 | pay0 A4>A1 fee0]", fee: c18feePoolFirst, build: func(x *c18exec) []*txntest.Txn {
+			return []*txntest.Txn{{Type: "pay", Sender: x.a[0], Receiver: x.a[4], Amount: 100_000}, {Type: "pay", Sender: x.a[4], Receiver: x.a[1], Amount: 0}}
 		}},
-		{name: "grp[pay A0>A2 1A fee0 | close A2>A0]", fee: c18feePoolLast, build: func(s *c18sys) []*txntest.Txn {
-			return []*txntest.Txn{{Type: "pay", Sender: s.a[0], Receiver: s.a[2], Amount: 1_000_000}, {Type: "pay", Sender: s.a[2], CloseRemainderTo: s.a[0]}}
+		{name: "grp[pay A0>A2 1A fee0 | close A2>A0]", fee: c18feePoolLast, build: func(x *c18exec) []*txntest.Txn {
+			return []*txntest.Txn{{Type: "pay", Sender: x.a[0], Receiver: x.a[2], Amount: 1_000_000}, {Type: "pay", Sender: x.a[2], CloseRemainderTo: x.a[0]}}
 		}},
-		{name: "pay A0>appA 1A", build: func(s *c18sys) []*txntest.Txn {
-			return []*txntest.Txn{{Type: "pay", Sender: s.a[0], Receiver: s.appA.Address(), Amount: 1_000_000}}
+		// zero-fee keyreg to non-participating inside a fee-pooled group: the only place where an
+		// account with pending rewards changes status without any Algo movement of its own
+		{name: "grp[pay1 A0>A2 | keyreg nonpart A1 fee0]", fee: c18feePoolFirst, build: func(x *c18exec) []*txntest.Txn {
+			return []*txntest.Txn{{Type: "pay", Sender: x.a[0], Receiver: x.a[2], Amount: 1}, {Type: "keyreg", Sender: x.a[1], Nonparticipation: true}}
+		}},
+		{name: "pay A0>appA 1A", build: func(x *c18exec) []*txntest.Txn {
+			return []*txntest.Txn{{Type: "pay", Sender: x.a[0], Receiver: x.appA.Address(), Amount: 1_000_000}}
 		}},
 	}
 	ends := []c18op{
-		{name: "END proposer=A3 eligible", end: true, proposer: func(s *c18sys) basics.Address { return s.a[3] }, eligible: true},
-		{name: "END proposer=A3 ineligible", end: true, proposer: func(s *c18sys) basics.Address { return s.a[3] }, eligible: false},
-		{name: "END proposer=A0(offline) eligible", end: true, proposer: func(s *c18sys) basics.Address { return s.a[0] }, eligible: true},
-		{name: "END proposer=A4(maybe closed) eligible", end: true, proposer: func(s *c18sys) basics.Address { return s.a[4] }, eligible: true},
-		{name: "END proposer=sink eligible", end: true, proposer: func(s *c18sys) basics.Address { return s.sink }, eligible: true},
+		{name: "END proposer=A3 eligible", end: true, proposer: func(x *c18exec) basics.Address { return x.a[3] }, eligible: true},
+		{name: "END proposer=A3 ineligible", end: true, proposer: func(x *c18exec) basics.Address { return x.a[3] }, eligible: false},
+		{name: "END proposer=sink eligible", end: true, proposer: func(x *c18exec) basics.Address { return x.sink }, eligible: true},
+		{name: "END proposer=A0(offline) eligible", end: true, proposer: func(x *c18exec) basics.Address { return x.a[0] }, eligible: true},
+		{name: "END proposer=A4(maybe closed) eligible", end: true, proposer: func(x *c18exec) basics.Address { return x.a[4] }, eligible: true},
 	}
-	return append(ops, ends...)
+	return append(ops, ends[:nEnds]...)
+}
+
+// ---------------------------------------------------------------------------------------
+// sys: the E-SEQ instance. Three modes:
+//   recorder — created by New() for the engine's replay of a frontier node: only records the
+//              op sequence (all of it is known to be enabled) and materializes on demand;
+//   clone    — created by Clone(recorder) for exactly one new op;
+//   eager    — replay mode (VERIF_REPLAY): executes every op immediately on a private ledger.
+
+type c18sys struct {
+	w        *c18world
+	recorder bool
+	hist     []int
+	// bound counters, a pure function of hist
+	blocks, groupsInBlock, total int
+	sawEmpty                     bool
+	lastEnd                      int // index (among the end ops) of the last end-block op
+	base                         *c18sys
+	x                            *c18exec
+	herr                         error
 }
 
 // c18harness collects harness (non-verdict) failures of all instances.
@@ -779,124 +968,278 @@ func c18harnessFail(err error) {
 	}
 }
 
-// apply separates verdicts (*ve.Violation) from harness failures (recorded, never a verdict).
-func (s *c18sys) apply(op c18op) (bool, error) {
-	en, err := s.apply1(op)
-	if err == nil && s.harnessErr != nil {
-		err = s.harnessErr
+func (s *c18sys) fail(err error) {
+	if s.herr == nil {
+		s.herr = err
+		var v *ve.Violation
+		if errors.As(err, &v) {
+			// an oracle failure met outside the engine's Apply (set-up block, replay of a prefix)
+			s.w.run.Report(v.Key, fmt.Sprintf("[%s] after set-up + %v: %v", s.w.name, s.histNames(), err),
+				map[string]any{"engine": "seq", "harness": "evalmoney/" + s.w.name, "ops": s.hist, "op_names": s.histNames()})
+			return
+		}
+		c18harnessFail(fmt.Errorf("[%s] after %v: %w", s.w.name, s.histNames(), err))
 	}
+}
+
+func (s *c18sys) histNames() []string {
+	out := make([]string, len(s.hist))
+	for i, o := range s.hist {
+		out[i] = s.w.ops[o].name
+	}
+	return out
+}
+
+// boundEnabled: the pure part of op enabledness.
+func (s *c18sys) boundEnabled(op int) bool {
+	o := s.w.ops[op]
+	bd := s.w.bd
+	if s.blocks >= bd.blocks {
+		return false
+	}
+	if s.blocks > 0 && bd.contEnds > 0 && s.lastEnd >= bd.contEnds {
+		return false
+	}
+	if o.end {
+		if !bd.allowEmpty && s.blocks > 0 && s.groupsInBlock == 0 {
+			return false
+		}
+		return true
+	}
+	if s.groupsInBlock >= bd.perBlock || s.total >= bd.total {
+		return false
+	}
+	if !bd.allowEmpty && s.sawEmpty {
+		return false
+	}
+	return true
+}
+
+func (s *c18sys) count(op int) {
+	s.hist = append(s.hist, op)
+	if s.w.ops[op].end {
+		if s.groupsInBlock == 0 {
+			s.sawEmpty = true
+		}
+		s.blocks++
+		s.groupsInBlock = 0
+		s.lastEnd = op - s.w.nGroupOps
+	} else {
+		s.groupsInBlock++
+		s.total++
+	}
+}
+
+// materialize builds a private exec by executing hist.
+func (s *c18sys) materialize() *c18exec {
+	if s.x != nil || s.herr != nil {
+		return s.x
+	}
+	x, err := c18newExec(s.w)
+	if err != nil {
+		s.fail(err)
+		return nil
+	}
+	for i, op := range s.hist {
+		en, err := x.run(op)
+		if err != nil || !en {
+			x.close()
+			s.fail(fmt.Errorf("replay divergence at step %d (%s): enabled=%v err=%w", i, s.w.ops[op].name, en, err))
+			return nil
+		}
+	}
+	s.x = x
+	return x
+}
+
+func (x *c18exec) run(op int) (bool, error) {
+	o := x.w.ops[op]
+	if o.end {
+		return x.endBlock(o.proposer(x), o.eligible)
+	}
+	return x.group(op)
+}
+
+func (s *c18sys) apply(op int) (bool, error) {
+	if s.herr != nil {
+		return false, nil
+	}
+	if !s.boundEnabled(op) {
+		return false, nil
+	}
+	if s.recorder {
+		s.count(op)
+		return true, nil
+	}
+	o := s.w.ops[op]
+	var x *c18exec
+	switch {
+	case s.x != nil: // eager instance
+		x = s.x
+	case o.end || s.base == nil:
+		x = s.materialize()
+	default:
+		bx := s.base.materialize()
+		if bx == nil {
+			s.herr = s.base.herr
+			return false, nil
+		}
+		var err error
+		x, err = bx.fork()
+		if err != nil {
+			s.fail(err)
+			return false, nil
+		}
+		s.x = x
+	}
+	if x == nil {
+		return false, nil
+	}
+	en, err := x.run(op)
 	if err != nil {
 		if v, ok := err.(*ve.Violation); ok {
 			return true, v
 		}
-		if s.harnessErr == nil {
-			s.harnessErr = err
-		}
-		c18harnessFail(fmt.Errorf("[%s] op %q: %w", s.sc.name, op.name, err))
+		s.fail(fmt.Errorf("op %q: %w", o.name, err))
 		return false, nil
 	}
-	return en, nil
+	if !en {
+		if !o.end {
+			s.w.rejected.Add(1)
+		}
+		s.w.opRej[op].Add(1)
+		if os.Getenv("C18_DEBUG") != "" && len(s.hist) == 0 {
+			fmt.Printf("DEBUG [%s] %q rejected at depth 1: %v\n", s.w.name, o.name, x.lastReject)
+		}
+		return false, nil
+	}
+	s.w.opAcc[op].Add(1)
+	s.count(op)
+	return true, nil
 }
 
-func (s *c18sys) apply1(op c18op) (bool, error) {
-	if s.harnessErr != nil {
-		return false, nil
-	}
-	if op.end {
-		if s.blocks >= s.bd.blocks {
-			return false, nil
-		}
-		return s.endBlock(op.proposer(s), op.eligible)
-	}
-	if s.blocks >= s.bd.blocks || s.groupsInBlock >= s.bd.perBlock || s.totalGroups >= s.bd.total {
-		return false, nil
-	}
-	ok, err := s.group(op.fee, op.build(s)...)
-	if err != nil {
-		return true, err
-	}
-	if !ok {
-		s.rejected.Add(1)
-	}
-	return ok, nil
-}
-
-// key: everything that can influence future behaviour of this alphabet: all known accounts
-// with their resources (LookupLatest), the rewards/bonus/counter part of the latest header,
-// the open block's accepted transactions and the bound counters. Transaction ids never
-// recur (position-dependent notes), so the tx tail is not part of the key.
 func (s *c18sys) key() string {
-	if s.harnessErr != nil {
-		return "harness-error:" + s.harnessErr.Error()
+	if s.herr != nil {
+		return "harness-error"
 	}
-	var b strings.Builder
-	rnd := s.l.Latest()
-	hdr, _ := s.l.BlockHdr(rnd)
-	fmt.Fprintf(&b, "r%d|%d|%d|%d|%d|bonus%d|ctr%d|g%d b%d t%d|", rnd, hdr.RewardsLevel, hdr.RewardsRate, hdr.RewardsResidue, hdr.RewardsRecalculationRound,
-		hdr.Bonus.Raw, hdr.TxnCounter, s.groupsInBlock, s.blocks, s.totalGroups)
-	for _, a := range s.knownSorted() {
-		ad, _, _, err := s.l.LookupLatest(a)
-		if err != nil {
-			fmt.Fprintf(&b, "err:%v", err)
-			continue
-		}
-		raw, _, _ := s.l.LookupWithoutRewards(rnd, a)
-		fmt.Fprintf(&b, "%x:%x:%d;", a[:4], protocol.Encode(&ad), raw.RewardsBase)
+	x := s.x
+	if x == nil {
+		x = s.materialize()
 	}
-	for _, id := range s.pending {
-		b.WriteString(id)
-		b.WriteByte(',')
+	if x == nil {
+		return "harness-error"
 	}
-	return ve.HashKey([]byte(b.String()))
+	return ve.HashKey([]byte(fmt.Sprintf("g%d b%d t%d e%v l%d|", s.groupsInBlock, s.blocks, s.total, s.sawEmpty, s.lastEnd)), []byte(x.key()))
 }
 
 func TestVerif_C18(t *testing.T) {
 	r := ve.NewRun("C18", "model_checking")
-	// private consensus versions (registered before any exploration starts)
+	// private consensus version (registered before any exploration starts)
 	nb := config.Consensus[protocol.ConsensusFuture]
 	nb.Bonus.BaseAmount = 0
 	nb.ApprovedUpgrades = map[protocol.ConsensusVersion]uint64{}
 	config.Consensus["verif-c18-nobonus"] = nb
-	scs := []c18scenario{
-		{"future-payouts-bonus", protocol.ConsensusFuture},
-		{"future-payouts-nobonus", "verif-c18-nobonus"},
-		{"v39-no-payouts", protocol.ConsensusV39},
+
+	type scen struct {
+		name  string
+		cv    protocol.ConsensusVersion
+		bd    c18bounds
+		nEnds int
 	}
-	bd := c18bounds{perBlock: ve.Pick(2, 3), blocks: ve.Pick(2, 3), total: ve.Pick(2, 3)}
-	ops := c18ops()
+	var scs []scen
+	if ve.Thorough() {
+		scs = []scen{
+			{"future-payouts-bonus", protocol.ConsensusFuture, c18bounds{perBlock: 3, blocks: 3, total: 3}, 5},
+			{"future-payouts-nobonus", "verif-c18-nobonus", c18bounds{perBlock: 2, blocks: 2, total: 2}, 5},
+			{"v39-no-payouts", protocol.ConsensusV39, c18bounds{perBlock: 3, blocks: 2, total: 3}, 1},
+		}
+	} else {
+		scs = []scen{
+			{"future-payouts-bonus", protocol.ConsensusFuture, c18bounds{perBlock: 2, blocks: 2, total: 2, contEnds: 1}, 3},
+			{"future-payouts-nobonus", "verif-c18-nobonus", c18bounds{perBlock: 2, blocks: 1, total: 2}, 2},
+			{"v39-no-payouts", protocol.ConsensusV39, c18bounds{perBlock: 2, blocks: 1, total: 2}, 1},
+		}
+	}
 	var cov ve.Coverage
 	cov.Exhaustive = true
-	var rejected atomic.Int64
+	var rejected, ledgers int64
+	opStats := map[string][2]int64{}
+	var rules []string
 	for _, sc := range scs {
-		sc := sc
+		ops := c18ops(sc.nEnds)
+		w, err := c18newWorld(t, sc.name, sc.cv, sc.bd, ops)
+		if err != nil {
+			t.Fatalf("HARNESS-FAILURE (not a verdict): %v", err)
+		}
+		w.eager = r.ReplayRequest() != nil
+		w.run = r
 		q := &ve.Seq[*c18sys]{
 			Name:   "evalmoney/" + sc.name,
 			NumOps: len(ops),
 			OpName: func(op int) string { return ops[op].name },
-			New:    func() *c18sys { return c18new(t, sc, bd, &rejected) },
-			Close:  func(s *c18sys) { s.close() },
-			Apply: func(s *c18sys, op int) (bool, error) { return s.apply(ops[op]) },
-			Key: func(s *c18sys) string { return s.key() },
-			Observe: func(s *c18sys) string {
-				return fmt.Sprintf("b%d g%d lvl%d", s.blocks, s.groupsInBlock, s.level)
+			New: func() *c18sys {
+				s := &c18sys{w: w, recorder: !w.eager}
+				if w.eager {
+					s.materialize()
+				}
+				return s
 			},
-			MaxDepth: bd.total + bd.blocks,
+			Clone: func(b *c18sys) *c18sys {
+				return &c18sys{w: w, hist: append([]int(nil), b.hist...), blocks: b.blocks, groupsInBlock: b.groupsInBlock, total: b.total, sawEmpty: b.sawEmpty, lastEnd: b.lastEnd, base: b, herr: b.herr}
+			},
+			Close: func(s *c18sys) {
+				s.x.close()
+				s.x = nil
+			},
+			Apply: func(s *c18sys, op int) (bool, error) { return s.apply(op) },
+			Key:   func(s *c18sys) string { return s.key() },
+			Observe: func(s *c18sys) string {
+				if s.x == nil {
+					return "-"
+				}
+				return fmt.Sprintf("b%d g%d lvl%d", s.blocks, s.groupsInBlock, s.x.level)
+			},
+			MaxDepth: sc.bd.total + sc.bd.blocks,
+		}
+		if w.eager {
+			q.Clone = nil
 		}
 		res := q.Explore(r)
 		cov.AddSeq(res)
 		if !res.Exhaustive {
 			cov.Exhaustive = false
 		}
-		if r.Violations() > 0 {
+		rejected += w.rejected.Load()
+		for i, o := range ops {
+			cur, _ := opStats[o.name]
+			cur[0] += w.opAcc[i].Load()
+			cur[1] += w.opRej[i].Load()
+			opStats[o.name] = cur
+		}
+		ledgers += w.ledgers.Load()
+		cont := "any end-block choice"
+		if sc.bd.contEnds > 0 {
+			cont = fmt.Sprintf("the first %d end-block choice(s)", sc.bd.contEnds)
+		}
+		rules = append(rules, fmt.Sprintf("%s: <=%d blocks, <=%d groups/block, <=%d groups total, %d group ops, %d end-block choices, next block only after %s", sc.name, sc.bd.blocks, sc.bd.perBlock, sc.bd.total, len(ops)-sc.nEnds, sc.nEnds, cont))
+		if r.Violations() > 0 || r.WasCapped() {
 			break
 		}
 	}
-	r.Set("rejected_groups_skipped", rejected.Load())
-	cov.Rule = fmt.Sprintf("BFS over all histories of <= %d blocks with <= %d groups per block and <= %d groups in total, groups from a %d-op alphabet (pay/close/pool/sink/asset/app/inner pay/inner close/inner app call/keyreg/heartbeat/fee-pooled groups), block ends from %d (proposer, eligible) choices, for %d consensus scenarios; after every accepted group and every block the sum of all balances incl. pending rewards is recomputed over every account that ever existed and compared with the genesis total, the delta totals and Ledger.Totals",
-		bd.blocks, bd.perBlock, bd.total, len(ops)-5, 5, len(scs))
+	r.Set("rejected_groups_skipped", rejected)
+	r.Set("ledgers_opened", ledgers)
+	r.Set("op_accepted_rejected", opStats)
+	for name, ar := range opStats {
+		if ar[0] == 0 && !strings.Contains(name, "self") {
+			r.Note("op %q was never accepted (accepted=%d rejected=%d)", name, ar[0], ar[1])
+		}
+	}
+	cov.Rule = "BFS over all histories of blocks of transaction groups (pay/close/pool/sink/asset/app/inner pay/inner close/inner app call/keyreg/heartbeat/fee-pooled groups) ended by (proposer, eligible) choices, on the real Ledger+BlockEvaluator; bounds per scenario: " + strings.Join(rules, "; ") +
+		"; a further block only after non-empty blocks; after every accepted group and every block the sum of all balances incl. pending rewards is recomputed over every account that ever existed and compared with the genesis total, the delta totals and Ledger.Totals"
 	r.Assume("block proposer / eligibility are chosen by the harness in place of agreement; signatures are not checked (mocked verified-txn cache, as in the upstream ledger tests)")
 	r.Assume("per-group account deltas are observed through the exported EvalTracer.AfterTxnGroup hook (the same hook simulate uses)")
 	r.Assume("the set of accounts that ever existed = genesis accounts + every address that ever appears in a group or block delta + the app accounts")
+	r.Assume("ledger opened with DisableLedgerLRUCache and small verified-txn cache (cost only)")
 	nviol := r.Finish(cov)
 	if n := c18harness.n.Load(); n > 0 {
 		t.Fatalf("HARNESS-FAILURE (not a verdict): %d harness errors, first: %v", n, c18harness.first.Load())
